@@ -385,6 +385,9 @@ func c18History(c *vc.Ctx, idx int) {
 			return
 		}
 		// export at irregular intervals, including right after busy blocks
+		if lh.vsetEnded {
+			break // the last validator left: CometBFT never commits this block, the state is not a reachable one
+		}
 		if blk >= 10 && (blk%13 == 5 || r.Intn(25) == 0) && imports < c.Pick(5, 12) {
 			exp, err := lh.ch.Node().Export()
 			if err != nil {
